@@ -244,7 +244,7 @@ func c06Trees(maxOps int, lits []int64, name string) *core.Scenario {
 
 // positions: a reduced expression set in every other operand position that admits an expression.
 func c06Positions(lits []int64) *core.Scenario {
-	positions := []string{"DB", "DW", "MOV AX", "MOV EAX", "MOV CL", "[BX+e]", "[EBX+e]", "[e+BX]", "[BX+e-1]", "RESB", "EQU", "EQU_chain", "ORG", "ADD CX", "PUSH"}
+	positions := []string{"EQU_reuse", "DB", "DW", "MOV AX", "MOV EAX", "MOV CL", "[BX+e]", "[EBX+e]", "[e+BX]", "[BX+e-1]", "RESB", "EQU", "EQU_chain", "ORG", "ADD CX", "PUSH"}
 	return &core.Scenario{
 		Name: "positions", Bound: -1,
 		Rule:   "all expressions with <= 1 operator (and a 2-operator sample) over the literal set, placed in every operand position that admits an expression (data, immediates, displacements before/after/around a register term, RESB, EQU bodies, ORG); the encoded value must be the reference value modulo the field width; non-trivial = expression with an operator",
@@ -310,6 +310,8 @@ func c06Positions(lits []int64) *core.Scenario {
 				src = "X EQU " + e + "\n" + sentinelLine(0) + "\tDD X\n" + sentinelLine(1)
 			case "EQU_chain":
 				src = "X EQU " + e + "\nY EQU X*2+1\n" + sentinelLine(0) + "\tDD Y\n" + sentinelLine(1)
+			case "EQU_reuse": // the name is used as first factor of a product/quotient/remainder and then again
+				src = "X EQU " + e + "\nK EQU 3\n\tDD X*K\n\tDD X/K\n\tDD X%K\n\tDD K*X\n" + sentinelLine(0) + "\tDD X\n" + sentinelLine(1) + "\tDD K\n"
 			case "ORG":
 				src = "\tORG " + e + "\nhere:\n" + sentinelLine(0) + "\tDD here\n" + sentinelLine(1)
 			}
@@ -360,7 +362,7 @@ func c06Positions(lits []int64) *core.Scenario {
 							return v
 						}
 						got = rdle(reg)
-					case "EQU", "ORG":
+					case "EQU", "ORG", "EQU_reuse":
 						if len(reg) != 4 {
 							fail("length", "expected 4 bytes")
 							return v
@@ -418,7 +420,7 @@ func init() {
 	register(&Property{
 		ID: "C06",
 		Scenarios: func(tier string) []*core.Scenario {
-			lq := []int64{0, 1, -1, 7, 255, 0x10, 0x7fffffff, 3}
+			lq := []int64{0, 1, -1, 7, 255, 0x10, 0x7fffffff, 3, 0x80000000, 0xfffff000}
 			if tier == "thorough" {
 				return []*core.Scenario{c06Trees(2, lq, "trees_le2"), c06Trees(3, []int64{0, 1, -1, 7, 255}, "trees_le3"), c06Positions(lq)}
 			}
